@@ -30,7 +30,7 @@ class C15(pw.P21Check):
     sizes = [1, 2, 3, 5]
 
     def n_plans(self, tier):
-        return 6000 if tier == "quick" else 200000
+        return 20000 if tier == "quick" else 400000
 
     def time_budget(self, tier):
         return 120 if tier == "quick" else 1200
@@ -141,7 +141,8 @@ class C15(pw.P21Check):
                   "strict_runs": plan["strict"], "lenient_runs": 1 - plan["strict"]}
         for c in ("optional", "required-subst", "required-other"):
             probes["case_" + c] = 1 if info.get("case") == c else 0
-        return {"shape": core.hash_obj([plan["schema"], info.get("cat"), info.get("case"), plan["strict"], info.get("posclass"), info.get("in_complex")]),
+        return {"shape": core.hash_obj([plan["schema"], info.get("ent"), info.get("slot"), info.get("cat"), info.get("case"), plan["strict"], info.get("posclass"), info.get("in_complex"),
+                                        pw.delivery_class(plan["delivery"])]),
                 "nontrivial": applied and clean, "probes": probes, "faults": {"null-out": 1} if applied else {},
                 "state": core.hash_obj([info.get("case"), info.get("cat"), plan["strict"], rd.get("sev")])}
 
@@ -150,6 +151,8 @@ class C15(pw.P21Check):
         f = ["strict" if plan["strict"] else "lenient", "case:" + str(info.get("case")), "slot-type:" + str(info.get("cat"))]
         if info.get("in_complex"):
             f.append("target-in-complex-part")
+        if info.get("cat") in ("int", "real", "number"):
+            f.append("slot-numeric")
         if info.get("redeclared"):
             f.append("target-redeclared-slot")
         return f
